@@ -149,6 +149,20 @@ func (b *Backends) Commit() {
 	b.itemsAdd = map[string]*Backend{}
 	b.itemsDel = map[string]*Backend{}
 	b.changedShards = map[int]bool{}
+	b.defaultBackendCommitted = b.defaultBackendID()
+}
+
+func (b *Backends) defaultBackendID() string {
+	if b.DefaultBackend == nil {
+		return ""
+	}
+	return b.DefaultBackend.ID
+}
+
+// DefaultBackendChanged returns true if the default backend is not the
+// one of the last committed state, even if both of them already exist.
+func (b *Backends) DefaultBackendChanged() bool {
+	return b.defaultBackendCommitted != b.defaultBackendID()
 }
 
 // ChangeAll flags all the backends as added and all the shards as changed,
